@@ -1,5 +1,6 @@
 import FunModel.Sexp
 import FunModel.Drv.C12
+import FunModel.Drv.C19
 
 /-! Line-protocol driver: `driver <property>` reads one S-expression per line on stdin and prints
     the model's observation for it on one line. Core Lean only (no Mathlib) so it links. -/
@@ -7,6 +8,7 @@ open FunModel
 
 def handlerFor : String → Option (Sexp → String)
   | "C12" => some DrvC12.handle
+  | "C19" => some DrvC19.handle
   | _ => none
 
 partial def loop (h : IO.FS.Stream) (out : IO.FS.Stream) (f : Sexp → String) : IO Unit := do
